@@ -63,6 +63,11 @@ def zreal(v):
     return v
 
 
+def int_valued(e):
+    """ToReal(<integer term>): a piecewise-constant factor (counts, directions) -- multiplied / divided exactly."""
+    return z3.is_app_of(e, z3.Z3_OP_TO_REAL)
+
+
 def split_coef(e):
     """e = c * t with c a rational numeral (1 if none): numeric factors are pulled out of abstracted products."""
     if z3.is_app_of(e, z3.Z3_OP_UMINUS):
@@ -87,12 +92,23 @@ def split_coef(e):
     return Fraction(1), e
 
 
-class Num:
-    """A real number: exact Fraction when concrete, z3 Real term otherwise (R-mode floats)."""
-    __slots__ = ("v",)
+def nan_or(a, b):
+    if a is None:
+        return b
+    if b is None:
+        return a
+    return z3.Or(a, b)
 
-    def __init__(self, v):
+
+class Num:
+    """A real number: exact Fraction when concrete, z3 Real term otherwise (R-mode floats).
+    Optional `nan` flag (z3 Bool) = "this value is NaN" (N-mode): arithmetic propagates it, ordered comparisons
+    and == are false on NaN, != is true -- IEEE semantics of NaN over otherwise real arithmetic."""
+    __slots__ = ("v", "nan")
+
+    def __init__(self, v, nan=None):
         if isinstance(v, Num):
+            nan = nan_or(nan, v.nan)
             v = v.v
         if isinstance(v, bool):
             v = Fraction(int(v))
@@ -109,6 +125,7 @@ class Num:
         if not isinstance(v, Fraction) and not (is_z3(v) and v.sort() == z3.RealSort()):
             raise Unmodelled("not a real number: %r" % (v,))
         self.v = v
+        self.nan = nan
 
     @property
     def concrete(self):
@@ -118,55 +135,64 @@ class Num:
         return zreal(self.v)
 
     def __repr__(self):
-        return "Num(%s)" % (self.v,)
+        return "Num(%s%s)" % (self.v, "" if self.nan is None else " | nan:%s" % self.nan)
 
     @staticmethod
     def of(x):
         return x if isinstance(x, Num) else Num(x)
 
+    def _with(self, r, o=None):
+        n = nan_or(self.nan, o.nan if o is not None else None)
+        if n is None:
+            return r
+        return Num(r.v, n)
+
     def __add__(self, o):
         o = Num.of(o)
         if self.concrete and o.concrete:
-            return Num(self.v + o.v)
+            return self._with(Num(self.v + o.v), o)
         if self.concrete and self.v == 0:
-            return o
+            return self._with(Num(o.v), o)
         if o.concrete and o.v == 0:
-            return self
-        return Num(self.z() + o.z())
+            return self._with(Num(self.v), o)
+        return self._with(Num(self.z() + o.z()), o)
 
     __radd__ = __add__
 
     def __neg__(self):
-        return Num(-self.v) if self.concrete else Num(-self.z())
+        return self._with(Num(-self.v) if self.concrete else Num(-self.z()))
 
     def __sub__(self, o):
         o = Num.of(o)
         if self.concrete and o.concrete:
-            return Num(self.v - o.v)
+            return self._with(Num(self.v - o.v), o)
         if o.concrete and o.v == 0:
-            return self
-        return Num(self.z() - o.z())
+            return self._with(Num(self.v), o)
+        return self._with(Num(self.z() - o.z()), o)
 
     def __rsub__(self, o):
         return Num.of(o) - self
 
     def __mul__(self, o):
         o = Num.of(o)
+        return self._with(self._mul(o), o)
+
+    def _mul(self, o):
         if self.concrete and o.concrete:
             return Num(self.v * o.v)
         if self.concrete:
-            if self.v == 0:
+            if self.v == 0 and o.nan is None:
                 return Num(0)
             if self.v == 1:
-                return o
+                return Num(o.v)
             return Num(self.z() * o.z())
         if o.concrete:
-            if o.v == 0:
+            if o.v == 0 and self.nan is None:
                 return Num(0)
             if o.v == 1:
-                return self
+                return Num(self.v)
             return Num(self.z() * o.z())
-        if MUL_MODE["mode"] == "uf":
+        if MUL_MODE["mode"] == "uf" and not (int_valued(self.z()) or int_valued(o.z())):
             ca, a = split_coef(self.z())
             cb, b = split_coef(o.z())
             p = _PROD(a, b) + _PROD(b, a)
@@ -178,6 +204,9 @@ class Num:
 
     def __truediv__(self, o):
         o = Num.of(o)
+        return self._with(self._div(o), o)
+
+    def _div(self, o):
         if o.concrete:
             if o.v == 0:
                 # IEEE: x/0 is +-inf or NaN; over the reals it is left uninterpreted
@@ -185,7 +214,7 @@ class Num:
             if self.concrete:
                 return Num(self.v / o.v)
             return Num(self.z() * zreal(1 / o.v))
-        if MUL_MODE["mode"] == "uf":
+        if MUL_MODE["mode"] == "uf" and not int_valued(o.z()):
             return Num(_DIV(self.z(), o.z()))
         return Num(self.z() / o.z())
 
@@ -195,10 +224,17 @@ class Num:
     def _cmp(self, o, op):
         o = Num.of(o)
         if self.concrete and o.concrete:
-            return {"<": self.v < o.v, "<=": self.v <= o.v, ">": self.v > o.v, ">=": self.v >= o.v,
+            base = {"<": self.v < o.v, "<=": self.v <= o.v, ">": self.v > o.v, ">=": self.v >= o.v,
                     "==": self.v == o.v, "!=": self.v != o.v}[op]
-        a, b = self.z(), o.z()
-        return {"<": a < b, "<=": a <= b, ">": a > b, ">=": a >= b, "==": a == b, "!=": a != b}[op]
+        else:
+            a, b = self.z(), o.z()
+            base = {"<": a < b, "<=": a <= b, ">": a > b, ">=": a >= b, "==": a == b, "!=": a != b}[op]
+        n = nan_or(self.nan, o.nan)
+        if n is None:
+            return base
+        if op == "!=":
+            return b_or(n, base)
+        return b_and(z3.Not(n), base)
 
     def lt(self, o):
         return self._cmp(o, "<")
@@ -218,6 +254,18 @@ class Num:
     def ne(self, o):
         return self._cmp(o, "!=")
 
+    def is_nan(self):
+        return False if self.nan is None else self.nan
+
+    def same(self, o):
+        """identical as values (NaN == NaN here): used by obligations, not by the interpreted code"""
+        o = Num.of(o)
+        a, b = self.is_nan(), o.is_nan()
+        veq = (self.v == o.v) if (self.concrete and o.concrete) else (self.z() == o.z())
+        if a is False and b is False:
+            return veq
+        return z3.And(zbool(a) == zbool(b), z3.Or(zbool(a), zbool(veq)))
+
 
 PI = Num(z3.Real("pi"))
 
@@ -229,7 +277,10 @@ def pi_axioms():
 def num_fn(name, *args):
     """Uninterpreted real function (ln, exp, sqrt, powf …) applied to Nums."""
     f = uf(name, len(args))
-    return Num(f(*[Num.of(a).z() for a in args]))
+    n = None
+    for a in args:
+        n = nan_or(n, Num.of(a).nan)
+    return Num(f(*[Num.of(a).z() for a in args]), n)
 
 
 def ite(c, a, b):
@@ -237,7 +288,11 @@ def ite(c, a, b):
     if isinstance(c, bool):
         return a if c else b
     if isinstance(a, Num) or isinstance(b, Num):
-        return Num(z3.If(c, Num.of(a).z(), Num.of(b).z()))
+        a, b = Num.of(a), Num.of(b)
+        n = None
+        if a.nan is not None or b.nan is not None:
+            n = z3.If(c, zbool(a.is_nan()), zbool(b.is_nan()))
+        return Num(z3.If(c, a.z(), b.z()), n)
     if isinstance(a, bool) and isinstance(b, bool):
         if a == b:
             return a
@@ -606,6 +661,25 @@ class Engine:
             return True  # explore it; obligations are still decided under the path condition
         return r == z3.sat
 
+    def concretize_int(self, e):
+        """If the path condition forces the integer term `e` to one value, return it (else None)."""
+        if isinstance(e, int):
+            return e
+        t0 = time.time()
+        try:
+            if self.solver.check() != z3.sat:
+                return None
+            val = self.solver.model().eval(e, model_completion=True)
+            if not z3.is_int_value(val):
+                return None
+            v = val.as_long()
+            if self.solver.check(e != v) == z3.unsat:
+                return v
+            return None
+        finally:
+            self.stats["queries"] += 2
+            self.stats["solver_s"] += time.time() - t0
+
     # --- exploration -----------------------------------------------------------------------
     def explore(self, run, max_paths=2000):
         """run(ctx) -> result; yields (ctx, result) per feasible path.  result may be an exception object."""
@@ -815,6 +889,10 @@ class Engine:
                         return v
                 return v
             if kind == "IntToFloat":
+                if not isinstance(v, int):
+                    c = self.concretize_int(v)
+                    if c is not None:
+                        v = c
                 return Num(v) if isinstance(v, int) else Num(z3.ToReal(v))
             if kind == "IntToInt":
                 if isinstance(v, bool):
@@ -1043,14 +1121,16 @@ class Engine:
             raise Unmodelled("closure arity %s: %d vs %d" % (name, fn.nargs, 1 + len(args)))
         return self.run_frame(frame, 0)
 
-    def run_frame(self, frame, start_bb, stop_at=None):
+    def run_frame(self, frame, start_bb, stop_at=None, skip_first=False):
         fn = frame.fn
         bb = start_bb
         ctx = self.ctx
         visits = {}
+        first = True
         while True:
-            if stop_at is not None and bb in stop_at:
+            if stop_at is not None and bb in stop_at and not (skip_first and first):
                 return ("stopped", bb, frame)
+            first = False
             blk = fn.blocks[bb]
             visits[bb] = visits.get(bb, 0) + 1
             lim = self.loop_bounds.get(fn.name, self.loop_bounds.get("*", 200))
